@@ -278,6 +278,16 @@ theorem ulp_next_fails_subnormal (f : Fmt) (h : WF f) (x : Nat) (h0 : x ≠ 0) (
   refine ⟨by rw [hu, hz]; omega, ?_⟩
   rw [sval_lt_iff, (ord_succ' f h x hx fx).1]; omega
 
+/-- **ulp_next_repaired** (about the repair, not about the code): with the single extra branch
+"`0 < |x| < smallest_normal` → `smallest_subnormal`" the identity `x + ulp(x) == nextafter(x, inf)` holds for
+EVERY finite `x ≥ 0` below max, in every format — the finding is exactly the missing branch. -/
+theorem ulp_next_repaired (f : Fmt) (h : WF f) (x : Nat) (hx : x < 2 ^ f.width) (fx : isFiniteBits f x = true)
+    (hge : pyLt0 f x = false) (hmax : x ≠ f.maxBits) :
+    sval f (nextUp f x) = sval f x + sval f (ulpRepaired f x) ∧
+    (magBits f x = 0 ∨ f.minNormalBits ≤ magBits f x → ulpRepaired f x = ulp f x) := by
+  refine ⟨ulp_next_repaired' f h x hx fx hge hmax, ?_⟩
+  intro hc; unfold ulpRepaired; rw [if_neg (by omega)]
+
 /-- negation witness (binary64, replayed on the real code): `x = 5e-324` (pattern 1):
 `ulp x` is `+0`, whereas `nextafter(x, inf)` is pattern 2 with twice the value. -/
 theorem ulp_witness_binary64 :
